@@ -3,7 +3,9 @@ package sx
 import (
 	"fmt"
 	"go/types"
+	"os"
 	"reflect"
+	"runtime/debug"
 	"strconv"
 	"strings"
 	"unicode/utf8"
@@ -101,6 +103,9 @@ func (in *Interp) initStepLoop(th *Thread) {
 				why = "init ended: " + e.kind + " " + e.msg
 			default:
 				why = "engine error: " + fmt.Sprint(r)
+				if os.Getenv("GOSX_DEBUG") != "" {
+					fmt.Fprintf(os.Stderr, "INIT ENGINE ERROR %v at %s\nGOSTACK %s\n%s\n", r, in.curPos(th), in.stack(th), debug.Stack())
+				}
 			}
 			in.note("init: skipped (" + why + ") in " + in.initWhere(th))
 			// unwind to the package initialiser frame (depth of the lowest "init" frame) and poison
@@ -648,6 +653,12 @@ func registerMisc() {
 		}
 		return in.tb.Bool(was), true
 	}
+	for _, n := range []string{"reflect.ValueOf", "reflect.TypeOf", "internal/abi.TypeOf", "internal/reflectlite.ValueOf", "encoding/json.Unmarshal", "encoding/json.Marshal", "encoding/json.MarshalIndent", "reflect.DeepEqual"} {
+		n := n
+		I[n] = func(in *Interp, th *Thread, fn *ssa.Function, args []Value, d func(Value)) (Value, bool) {
+			panic(unsupported{"reflection-based code is not encodable: " + n})
+		}
+	}
 	I["internal/reflectlite.TypeOf"] = nil
 	delete(I, "internal/reflectlite.TypeOf")
 }
@@ -660,4 +671,45 @@ func (in *Interp) lookupMethodByName(t types.Type, name string) *ssa.Function {
 		}
 	}
 	panic(unsupported{"method " + name + " not found on " + t.String()})
+}
+
+// ---- unique.Make: interning table (init-time entries persist across paths) ----
+
+type uniqEntry struct {
+	t types.Type
+	v Value
+	c *Cell
+}
+
+func registerUnique() {
+	{
+		intrinsics["unique.Make"] = func(in *Interp, th *Thread, fn *ssa.Function, args []Value, d func(Value)) (Value, bool) {
+			t := fn.Signature.Params().At(0).Type()
+			lookup := func(list []uniqEntry) *Cell {
+				for _, e := range list {
+					if !types.Identical(e.t, t) {
+						continue
+					}
+					if in.decide(in.valEq(e.v, args[0])) {
+						return e.c
+					}
+				}
+				return nil
+			}
+			c := lookup(in.uniqInit)
+			if c == nil {
+				c = lookup(in.uniqPath)
+			}
+			if c == nil {
+				c = in.newCell(t)
+				in.storeCell(c, args[0])
+				if in.inInit {
+					in.uniqInit = append(in.uniqInit, uniqEntry{t, args[0], c})
+				} else {
+					in.uniqPath = append(in.uniqPath, uniqEntry{t, args[0], c})
+				}
+			}
+			return &StructV{[]Value{mkPtr(in.tb, c)}}, true
+		}
+	}
 }
